@@ -11,7 +11,7 @@ import (
 )
 
 func init() {
-	register("C07", c07Writers, c07Order, c07FS, c07Clean, c07Root, c07Own, c07Found, c03Cap, c07LazyBuf, c06Own)
+	register("C07", c07Writers, c07Order, c07FS, c07Clean, c07Root, c07Own, c07Found, c03Cap, c07LazyBuf, c06Own, c07Fresh)
 }
 
 // C07.writers — URI.path only ever holds normaliser output.
